@@ -234,7 +234,7 @@ def run_trace_shard(module, shard_path, workdir, deque=False, timeout=900, extra
 
 LAST_INFOS = []          # INFO tuples (e.g. MODEL-DRIFT) of the last validate_events call
 _verdict = re.compile(r'<<"VERDICT", (\d+), "([^"]*)", \{(.*)\}>>$')
-_pair = re.compile(r'<<"(C\d+)", "([^"]+)">>')
+_pair = re.compile(r'<<"(C\d+|I)", "([^"]+)">>')
 
 
 def validate_events(module, events, name, shards=None, deque=False, boundary=None):
